@@ -215,6 +215,17 @@ def run_ctor(case):
         neg.append(("duplicate names (default labels)", lambda: da.DimArray(vals, dims=dd)))
         neg.append(("one axis missing", lambda: da.DimArray(vals, axes=[x.copy() for x in larr[:-1]], dims=list(dims[:-1]))))
     if nd >= 1:
+        # methods that would return an array with a dimension name twice
+        neg.append(("newaxis(existing name)", lambda: core.build(spec).newaxis(dims[0])))
+        neg.append(("newaxis(existing name, pos=last)", lambda: core.build(spec).newaxis(dims[-1], pos=nd)))
+        neg.append(("newaxis(name).newaxis(same name)", lambda: core.build(spec).newaxis("extra_").newaxis("extra_")))
+        neg.append(("newaxis(existing name, values=)", lambda: core.build(spec).newaxis(dims[0], values=[1, 2])))
+        neg.append(("stack(axis=existing name)", lambda: da.stack([core.build(spec), core.build(spec)], axis=dims[0])))
+    if nd >= 2:
+        neg.append(("set_axis(name=another dimension's name, inplace=False)", lambda: core.build(spec).set_axis(name=dims[1], axis=dims[0], inplace=False)))
+        neg.append(("set_axis(name=another dimension's name, axis by position, inplace=False)", lambda: core.build(spec).set_axis(name=dims[0], axis=nd - 1, inplace=False)))
+        neg.append(("reshape(a name twice)", lambda: core.build(spec).reshape(*(list(dims) + [dims[0]]))))
+    if nd >= 1:
         neg.append(("empty name", lambda: da.DimArray(vals, axes=[x.copy() for x in larr], dims=[""] + list(dims[1:]))))
         neg.append(("non-str name", lambda: da.DimArray(vals, axes=[x.copy() for x in larr], dims=[3] + list(dims[1:]))))
         neg.append(("zeros with duplicate names", lambda: da.zeros(axes=[x.copy() for x in larr] * 2, dims=list(dims) * 2)))
@@ -241,6 +252,7 @@ def run_ctor(case):
                    ("axes[name].values = labels of another length", lambda b: setattr(b.axes[d], "values", warr.copy())),
                    ("values = array of another shape", lambda b: setattr(b, "values", np.zeros(tuple(len(l) + (1 if j == i else 0) for j, l in enumerate(labels)))))]
         if nd >= 2:
+            inplace.append(("set_axis(name=another dimension's name)", lambda b: b.set_axis(name=dims[(i + 1) % nd], axis=d)))
             inplace.append(("dims = fewer names", lambda b: setattr(b, "dims", tuple(dims[:-1]))))
             inplace.append(("axes = fewer axes (Axis objects)", lambda b: setattr(b, "axes", [da.Axis(core.label_array(l), dd) for dd, l in list(zip(dims, labels))[:-1]])))
             inplace.append(("axes = fewer axes (Axes)", lambda b: setattr(b, "axes", da.Axes([da.Axis(core.label_array(l), dd) for dd, l in list(zip(dims, labels))[:-1]]))))
